@@ -108,6 +108,12 @@ def cases(tier, seed):
                    "assign": list(assign), "nan": nanp, "ctypes": [0, 1],
                    "join": False, "order": 0, "stored": 0, "unmapped": False,
                    "prior": False}
+    # x is itself a result (a data variable that varies from line to line,
+    # linked along a dimension): a point is drawn where x and y both exist
+    for p, nanp, join in itertools.product(
+            ("color", "row", "marker"),
+            ("none", "x", "y", "xy-diff", "xy-same", "x-all"), (False, True)):
+        yield {"mode": "xvar", "prop": p, "nan": nanp, "join": join}
     # fused dimensions
     for p, nanp in itertools.product(("color", "marker", "linestyle", "row"),
                                      ("none", "point")):
@@ -205,6 +211,7 @@ def check_case(case):
 
     try:
         return {"lines": check_lines, "fused": check_fused,
+                "xvar": check_xvar,
                 "aggregate": check_agg, "hist": check_hist,
                 "heat": check_heat}[case["mode"]](case)
     finally:
@@ -454,6 +461,86 @@ def check_lines(case):
                 vio.append((key("title"), "panel %r not titled with %s=%s: %r"
                             % ((i, j), row_d, v, texts)))
     return fin(case, vio, len(expected) >= 2)
+
+
+def check_xvar(case):
+    import numpy as np
+    import xarray as xr
+
+    na, nt = 3, 5
+    yv = np.array([[encode(ix, (i,)) for ix in range(nt)] for i in range(na)])
+    xv = np.array([[100.0 * (i + 1) + 2.0 * ix for ix in range(nt)]
+                   for i in range(na)])
+    nanp = case["nan"]
+    if nanp in ("x", "xy-diff"):
+        xv[0, 2] = np.nan
+    if nanp in ("y", "xy-diff"):
+        yv[0, 3] = np.nan
+    if nanp == "xy-diff":
+        xv[1, 0] = np.nan
+    if nanp == "xy-same":
+        xv[0, 1] = yv[0, 1] = np.nan
+    if nanp == "x-all":
+        xv[2, :] = np.nan
+    ds = xr.Dataset({"xv": (("a", "t"), xv.copy()), "yv": (("a", "t"), yv.copy())},
+                    coords={"a": ["p", "q", "r"], "t": np.arange(nt)})
+    before = ds.copy(deep=True)
+    vio = []
+
+    def key(sym):
+        return "C18|xvar|%s|%s" % (case["prop"], sym)
+
+    kw = {case["prop"]: "a", "xlink": "t"}
+    if case["join"]:
+        kw["join_across_missing"] = True
+    fig, axs, err = plot(key, ds, "xv", "yv", **kw)
+    if err:
+        return fin(case, [err])
+    if not ds.identical(before):
+        vio.append((key("dataset-modified"), "plotting changed the dataset"))
+    expected = {}
+    for i in range(na):
+        m = ~np.isnan(xv[i]) & ~np.isnan(yv[i])
+        if np.any(m):
+            expected[i] = m
+    seen = set()
+    for ax in axs.flat:
+        for line in ax.lines:
+            xd = np.asarray(line.get_xdata(), float)
+            yd = np.asarray(line.get_ydata(), float)
+            vis = np.isfinite(xd) & np.isfinite(yd)
+            if not np.any(np.isfinite(yd)):
+                vio.append((key("empty-line"), "an all-NaN line was drawn"))
+                continue
+            _, (i,) = decode(yd[np.isfinite(yd)][0], 1)
+            if i in seen:
+                vio.append((key("drawn-twice"), "slice %r drawn more than "
+                            "once" % i))
+                continue
+            seen.add(i)
+            if i not in expected:
+                if np.any(vis):
+                    vio.append((key("unexpected-line"), "a line for slice %r "
+                                "which has no point with both x and y" % i))
+                continue
+            m = expected[i]
+            if case["join"]:
+                good = xd.shape == xv[i][m].shape and np.array_equal(
+                    xd, xv[i][m]) and np.array_equal(yd, yv[i][m])
+            else:
+                good = len(xd) == nt and len(yd) == nt and np.array_equal(
+                    vis, m) and np.array_equal(xd[m], xv[i][m]) and \
+                    np.array_equal(yd[m], yv[i][m])
+            if not good:
+                vio.append((key("points"), "slice %r: drawn x=%r y=%r, data "
+                            "x=%r y=%r (join_across_missing=%r)" % (
+                                i, xd.tolist(), yd.tolist(), xv[i].tolist(),
+                                yv[i].tolist(), case["join"])))
+    missing = [i for i in expected if i not in seen]
+    if missing:
+        vio.append((key("not-drawn"), "slices %r have points with both x and "
+                    "y but were not drawn" % (missing,)))
+    return fin(case, vio, True)
 
 
 def check_fused(case):
